@@ -131,9 +131,13 @@ def SafeActivation (P : Prog) (f : Func) (cfg : Cfg) : Prop :=
 theorem exec_ok_decodes {P : Prog} {f : Func} {cfg : Cfg} {s : St} {l : List St}
     (h : exec P f cfg s = .ok l) : ∃ i, decodeAt f.code s.pc = .ok i := by
   unfold exec at h
-  cases hd : decodeAt f.code s.pc with
-  | error e => rw [hd] at h; cases h
-  | ok i => exact ⟨i, rfl⟩
+  cases hr : execRaw P f cfg s with
+  | error e => rw [hr] at h; cases h
+  | ok l' =>
+    unfold execRaw at hr
+    cases hd : decodeAt f.code s.pc with
+    | error e => rw [hd] at hr; cases hr
+    | ok i => exact ⟨i, rfl⟩
 
 /-- **Certificate soundness.** A state set that passes `checkCert` contains every reachable state,
 and no reachable state faults. -/
@@ -154,29 +158,33 @@ theorem verify_sound (P : Prog) (f : Func) (lax : Bool) (v : Verdict)
     ∃ cfg bs, cfg.lax = lax ∧ checkStructure P f = .ok bs ∧ SafeActivation P f cfg ∧
       ∀ s, Reachable P f cfg s → s.pc ∈ bs := by
   unfold verifyFunc at h
-  cases hs : checkStructure P f with
-  | error e => rw [hs] at h; cases h
-  | ok bs =>
-    rw [hs] at h
-    simp only [] at h
-    cases he : explore P f lax (4 * maxStates) [St.entry] {} [] (f.catches.map fun _ => none) with
-    | error e => rw [he] at h; cases h
-    | ok r =>
-      obtain ⟨cert, hd⟩ := r
-      rw [he] at h
-      simp only [] at h
-      split at h
-      · rename_i hc
-        simp only [Bool.and_eq_true] at hc
-        refine ⟨cfgOf lax hd, bs, rfl, rfl, cert_sound P f _ cert hc.1.1, ?_⟩
-        intro s hr
-        exact onBoundaries_mem hc.1.2 (reachable_in_cert hc.1.1 hr)
-      · cases h
+  cases hv : verifyFuncD P f lax with
+  | error r => rw [hv] at h; cases h
+  | ok v' =>
+    unfold verifyFuncD at hv
+    cases hs : checkStructure P f with
+    | error e => rw [hs] at hv; cases hv
+    | ok bs =>
+      rw [hs] at hv
+      simp only [] at hv
+      cases he : explore P f { lax := lax } (4 * maxStates) [St.entry f { lax := lax }] {} [] {} with
+      | error e => rw [he] at hv; cases hv
+      | ok r =>
+        obtain ⟨cert, dg⟩ := r
+        rw [he] at hv
+        simp only [] at hv
+        split at hv
+        · rename_i hc
+          simp only [Bool.and_eq_true] at hc
+          refine ⟨{ lax := lax }, bs, rfl, rfl, cert_sound P f _ cert hc.1, ?_⟩
+          intro s hr
+          exact onBoundaries_mem hc.2 (reachable_in_cert hc.1 hr)
+        · cases hv
 
 /-- the operand stack never underflows: a generic stack instruction that executes without fault
 had its operands on the stack (the same holds for every other class: `exec` checks before it pops) -/
-theorem no_underflow_stack (f : Func) (cfg : Cfg) (pc next : Nat) (stk : List AV) (p q : Nat) (thr : Thr)
-    (l : List St) (h : stackStep f cfg pc next stk p q thr = .ok l) : p ≤ stk.length := by
+theorem no_underflow_stack (f : Func) (cfg : Cfg) (marks : List (Option Nat)) (pc next : Nat) (stk : List AV) (p q : Nat) (thr : Thr)
+    (l : List St) (h : stackStep f cfg marks pc next stk p q thr = .ok l) : p ≤ stk.length := by
   unfold stackStep need at h
   by_cases hp : p ≤ stk.length
   · exact hp
@@ -192,7 +200,7 @@ def op (name : String) : Nat := (Gen.Opcodes.rows.find? (fun r => r.2.1 == name)
 def tiny : Func := { code := #[op "INT_1", op "RETURN"], consts := #[], catches := [], upvalues := 0, params := 0 }
 
 /-- the hypothesis of `cert_sound` is satisfiable: a two-state certificate for `INT_1; RETURN` -/
-example : checkCert #[tiny] tiny {} [⟨0, []⟩, ⟨1, [.int 1]⟩] = true := by
+example : checkCert #[tiny] tiny {} [⟨0, [], []⟩, ⟨1, [.int 1], []⟩] = true := by
   rw [checkCert_eq_L]; decide
 
 /-- `def f: Int; a := 10 + do boom() catch Error() as e; 2 end; a end` as the compiler emits it
@@ -217,8 +225,8 @@ collapsed callee frame leaves stays under the handler's values): the join is inc
 `ADD_INT` adds the garbage slot. -/
 theorem d16_witness : ¬ JoinConsistent d16P d16f {} := by
   intro h
-  have h1 := reachN_sound d16P d16f {} 5 ⟨30, [.any, .int 10]⟩ (by decide)
-  have h2 := reachN_sound d16P d16f {} 14 ⟨30, [.int 2, .any, .int 10]⟩ (by decide)
+  have h1 := reachN_sound d16P d16f {} 5 ⟨30, [.any, .int 10], []⟩ (by decide)
+  have h2 := reachN_sound d16P d16f {} 14 ⟨30, [.int 2, .any, .int 10], []⟩ (by decide)
   have := h _ _ h1 h2 rfl
   simp at this
 
